@@ -42,6 +42,10 @@ for g, nm in (("validators", "v"), ("cond", "c"), ("unless", "u"), ("before", "b
     SLOTS.append((g, "callable", "fn", "f" + nm))
     SLOTS.append((g, "decorator", "dec", "d" + nm))
 
+# a second inline callable with the same __name__ (two lambdas, two local functions `cb`)
+for g, nm in (("cond", "c"), ("before", "b"), ("on", "o"), ("enter", "e")):
+    SLOTS.append((g, "callable", "fn", "f" + nm + "#2"))
+
 KINDS = [(k, ev) for k in ("external", "self", "internal") for ev in ("e1", "e2")] + \
         [("rejected-first", "e1"), ("initial", None)]
 ENGINES = ("sync-rtc", "sync-nonrtc", "async-all", "async-first", "async-wrapped")
@@ -122,7 +126,7 @@ def make_spec(pop, kind, mask):
 
 
 VALS = {"ic": True, "iu": False, "fc": True, "fu": False, "dc": True, "du": False, "never": False,
-        "iv": True, "fv": True, "dv": True}
+        "iv": True, "fv": True, "dv": True, "fc#2": True}
 
 
 def run_scenario(pop, kind, ev, mask):
